@@ -21,7 +21,7 @@ func main() {
 	rep := kit.New("C08", "fault_enumeration")
 	rep.Quiet()
 	log.SetOutput(io.Discard) // nsqd logs every file open through the standard logger
-	depth := 6
+	depth := 7
 	sizes := []int{0, 3, 30}
 	maxBytes := []int64{1, 16, 40}
 	syncEvery := []int64{1, 2, 1000}
